@@ -35,7 +35,7 @@ ASSUMPTIONS = [
     'stored spectrum compared with an independent model at the MAP on the full native grid and the C05 reference binning, rtol 1e-9',
 ]
 RULE = RULE + ' ' + 'Also: a user-defined clipped derived parameter (python int 0 below a floor, float above) among the derived parameters; cases stratified by sampler.'
-REQUIRED = {'zero-coordinate-at-map': 0.05, 'refit-on-same-optimizer': 0.15, 'sampler:nestle': 0.15, 'sampler:multinest': 0.15, 'weights:nonuniform': 0.3, 'has-derived': 0.2}
+REQUIRED = {'zero-coordinate-at-map': 0.03, 'first-fit-broke-off-in-post-processing': 0.02, 'refit-on-same-optimizer': 0.15, 'sampler:nestle': 0.15, 'sampler:multinest': 0.15, 'weights:nonuniform': 0.3, 'has-derived': 0.2}
 
 DERIVED = ['mu', 'logg', 'avg_T', 'T_excess']
 
@@ -48,6 +48,8 @@ def install_excess(m):
     floor = float(np.asarray(m.temperatureProfile, dtype=float)[0])
 
     def t_excess(self):
+        if getattr(self, '_verif_fail', False):
+            raise RuntimeError('derived parameter not available')          # a user-defined getter that can fail
         return max(float(np.asarray(self.temperatureProfile, dtype=float)[0]) - floor, 0)
     m.add_derived_param('T_excess', 'T_x', t_excess, False)
     m.collect_derived_parameters()
@@ -85,7 +87,8 @@ def _case(draw, sampler=None):
     return {'tiny': tiny, 'world': w, 'sampler': sampler, 'family': family, 'fitted': list(fitted), 'priors': pri,
             'obs': draw(c06.observation_spec()), 'ns': ns, 'wkind': wkind, 'u': u, 'wr': wr, 'derived': derived,
             'ngauss': 1 + draw(S.ints(0, 1)), 'split': draw(st.floats(0.2, 0.8)),
-            'size': draw(st.sampled_from(['heavy', 'light', 'lighter'])), 'refit': draw(st.sampled_from([True, False, False])), 'zero_coord': draw(st.sampled_from([True, False]))}
+            'size': draw(st.sampled_from(['heavy', 'light', 'lighter'])), 'refit': draw(st.sampled_from([True, False, True])), 'zero_coord': draw(st.sampled_from([True, False])),
+            'first_fit_fails': draw(st.sampled_from([True, False]))}
 
 
 def strategy(tier, part=None):
@@ -289,8 +292,18 @@ def check(case):
                 R.samples, R.weights = keep_s[::-1][:k_].copy(), keep_w[::-1][:k_].copy()
                 if R.weights.sum() <= 0:
                     R.weights = np.ones(k_) / k_
-                with contextlib.redirect_stdout(io.StringIO()), np.errstate(all='ignore'):
-                    cut(out, 'fit@%s,first-of-two' % sampler, R.opt.fit, size)
+                if 'T_excess' in R.derived and case.get('first_fit_fails'):
+                    # ... and that first fit broke off in its post-processing (a derived getter raised; the caller caught it)
+                    R.m._verif_fail = True
+                    try:
+                        with contextlib.redirect_stdout(io.StringIO()), np.errstate(all='ignore'):
+                            R.opt.fit(size)
+                    except Exception:
+                        out.cls('first-fit-broke-off-in-post-processing')
+                    R.m._verif_fail = False
+                else:
+                    with contextlib.redirect_stdout(io.StringIO()), np.errstate(all='ignore'):
+                        cut(out, 'fit@%s,first-of-two' % sampler, R.opt.fit, size)
                 R.samples, R.weights = keep_s, keep_w
                 if hasattr(R, 'modes'):
                     del R.modes
